@@ -105,6 +105,8 @@ class ParamUse:
                 return [('escape', 'parameter object may be returned/bound by a conditional expression', ln)]
             if isinstance(par, ast.BoolOp):
                 gp = getattr(par, '_parent', None)
+                if isinstance(gp, ast.Assign) and len(gp.targets) == 1 and isinstance(gp.targets[0], ast.Name) and gp.targets[0].id == pname:
+                    return []      # `x = x or <fresh default>`: the name keeps denoting the caller's object or a fresh one
                 if not isinstance(gp, (ast.If, ast.While, ast.Assert, ast.BoolOp, ast.UnaryOp)):
                     return [('escape', '`x or default` style expression may bind the caller\'s object', ln)]
             return []
@@ -175,9 +177,11 @@ class ParamUse:
 def defaults_ro(chk, program, rule='DEFAULTS-RO'):
     pu = ParamUse(program)
     n = 0
+    scanned = 0
     for mname in ('decoder', 'encoder', 'message', 'ioclient'):
         m = program.mod(mname)
         for q, fn in m.defs.items():
+            scanned += 1
             a = fn.args
             params = a.args
             for p, d in zip(params[len(params) - len(a.defaults):], a.defaults):
@@ -193,7 +197,9 @@ def defaults_ro(chk, program, rule='DEFAULTS-RO'):
                     chk.check(not bad, rule, inst, file=m.rel(), line=fn.lineno, func=q, expected='mutable default is only read (iterated, copied, compared), transitively through the callees it is passed to',
                               found=[f"{k}: {d_} (line {l})" for k, d_, l in bad] or 'read-only',
                               detail='' if not bad else 'the default object is shared by every instance created without that argument: one instance\'s filter edits would leak into the next')
-    chk.floor('mutable_default_parameters', n, 30)
+    chk.unit('mutable_default_parameters', n)
+    # replacing mutable defaults by None is an improvement, so the floor is on what was scanned, not on what was found
+    chk.floor('functions_scanned_for_mutable_defaults', scanned, 60)
 
 def no_global_write(chk, program, rule='NO-GLOBAL-WRITE'):
     """no function rebinds a module-level name or mutates a module-level container"""
